@@ -109,6 +109,36 @@ pub(super) fn eph_scenarios(rec: &mut Rec, rng: &mut Rng, secp: &Secp, rounds: u
 		}));
 		let re = match session { Ok(Ok(re)) => re, Ok(Err(e)) => { rec.oracle_fail(format!("genuine session with a real PeerManager failed: {} ; {}", e, ctx)); return; }, Err(p) => { rec.oracle_fail(format!("genuine session panicked: {} ; {}", p, ctx)); return; } };
 		if !step(rec, rng, &mut used, 2, Some(re)) { return; }
+		let mut n_msgs = n_msgs;
+		// ---- while that session is up: a second connection that authenticates as the SAME node id must be refused at
+		// act three (`insert_node_id!`, Occupied arm) and must leave the first connection connected and working
+		if rng.chance(1, 2) {
+			let mut d3 = Desc::new(700_000 + round as u64); d3.s.lock().unwrap().budget = usize::MAX / 2;
+			let mut enc3 = Enc::new_outbound(node.id, rand_sk(rng));
+			let a1 = enc3.get_act_one(secp);
+			let second = guarded(AssertUnwindSafe(|| -> Result<(bool, [u8; 33]), String> {
+				node.pm.new_inbound_connection(d3.clone(), None).map_err(|_| "new_inbound_connection failed")?;
+				node.pm.read_event(&mut d3, &a1).map_err(|_| "genuine act one rejected")?;
+				node.pm.process_events();
+				let act2 = take(&d3, 50).ok_or("no act two written")?;
+				let mut re3 = [0u8; 33]; re3.copy_from_slice(&act2[1..34]);
+				let (a3, _) = enc3.process_act_two(&act2, &&signer).map_err(|_| "genuine act two rejected")?;
+				Ok((node.pm.read_event(&mut d3, &a3).is_err(), re3))
+			}));
+			let (refused, re3) = match second { Ok(Ok(x)) => x, Ok(Err(e)) => { rec.oracle_fail(format!("second connection of a connected node id could not run: {} ; {}", e, ctx)); return; }, Err(p) => { rec.oracle_fail(format!("a second connection of an already connected node id panicked the PeerManager: {} ; honest peer node id {} ; {}", p, hex(&my_id.serialize()), ctx)); return; } };
+			if !step(rec, rng, &mut used, 2, Some(re3)) { return; }
+			let first_listed = node.pm.peer_by_node_id(&my_id).is_some();
+			// the first connection still delivers
+			let f = enc.encrypt_buffer(&custom(known_ty(rng), 9, 77)).unwrap();
+			let first_works = guarded(AssertUnwindSafe(|| node.pm.read_event(&mut d1, &f).is_ok())).unwrap_or(false);
+			transcript.push(f); n_msgs += 1;
+			let delivered = node.h.received.lock().unwrap().len() == n_msgs;
+			if !refused || !first_listed || !first_works || !delivered {
+				rec.oracle_fail(format!("a second inbound connection that completed the handshake as an already connected node id was not refused cleanly: second-connection-refused-at-act-three={} first-connection-still-listed={} first-connection-read-ok={} message-on-first-connection-delivered={} ; honest peer node id {} ; {}", refused, first_listed, first_works, delivered, hex(&my_id.serialize()), ctx));
+				return;
+			}
+			oracle_case(rec, &format!("note dup-node-id round {}", round), "eph:second-connection-same-node-id-refused");
+		}
 		let got1 = node.h.received.lock().unwrap().len();
 		if got1 != n_msgs || node.pm.peer_by_node_id(&my_id).is_none() { rec.oracle_fail(format!("genuine session: {} of {} messages delivered, peer listed: {} ; {}", got1, n_msgs, node.pm.peer_by_node_id(&my_id).is_some(), ctx)); return; }
 		node.pm.socket_disconnected(&d1);
